@@ -22,6 +22,9 @@ package common
 //@ -- object remembers what it was decoded from (SnapSrc, see zz_contracts_verif.go).
 //@   ensures [version] err == nil ==> result0.Snapshot.Version == SnapshotVersionCommonEncoding
 //@   ensures [source] err == nil ==> SnapSrc(result0.Snapshot) == kvval(b)
+//@ -- added for C07: the decoder accepts only strictly increasing transaction hashes (PROVED: DecodeSnapshotWithTopo [order]); this is what makes
+//@ -- PayloadHash() of a decoded snapshot read-only ((*Snapshot).PayloadHash `requires [canonical]`).
+//@   ensures [order] err == nil ==> TxsCanonical(result0.Snapshot.Transactions)
 
 //@ -- PROVED: the minimum decoder starts at position 0 of b[4:].
 //@ func NewMinimumDecoder
